@@ -43,10 +43,12 @@ Inductive transform := TPhi | TLog | TLog10 | TExp | TShift (shift scale : float
 (* code variants: the code that exists (`cur`) and the proposed repairs *)
 Record variant := mkvariant {
   keep_limits : bool;     (* TransformedMessage.with_base passes lower_limit/upper_limit on *)
-  tzeros_via_base : bool  (* TransformedMessage.zeros_like = with_base(base.zeros_like()) *)
+  tzeros_via_base : bool; (* TransformedMessage.zeros_like = with_base(base.zeros_like()) *)
+  beta_project_ok : bool  (* inv_beta_suffstats solves its Newton step (with the installed numpy 2
+                             np.linalg.solve rejects the (n,2) right-hand side: every BetaMessage.project raises) *)
 }.
-Definition cur : variant := mkvariant false false.
-Definition repaired : variant := mkvariant true true.
+Definition cur : variant := mkvariant false false false.
+Definition repaired : variant := mkvariant true true true.
 
 (* id -1 stands for "a fresh id drawn from AbstractMessage.ids" *)
 Definition fresh_id : Z := (-1)%Z.
@@ -226,16 +228,23 @@ Section Generic.
     | _, _ => []
     end.
 
+  (* w /= w.mean(0): weights rescaled to mean one *)
+  Definition norm_weights (w : list T) : list T * T :=
+    let norm := mean w in (map (fun x => odiv O x norm) w, norm).
+
+  (* (t * w).mean(): one sufficient statistic *)
+  Definition wstat (t w' : list T) : T := mean (map2 (omul O) t w').
+
   (* weights of AbstractMessage.project for one array element *)
   Definition proj_weights (lws : list T) : list T * T * T :=
     let wmax := fold_left (omax O) (tl lws) (hd (c0 O) lws) in
     let w := map (fun l => oexp O (osub O l wmax)) lws in
-    let norm := mean w in
-    (map (fun x => odiv O x norm) w, norm, wmax).
+    let '(w', norm) := norm_weights w in
+    (w', norm, wmax).
 
   Definition suff_stats (f : family) (xs lws : list T) : list T :=
     let w' := fst (fst (proj_weights lws)) in
-    map (fun t => mean (map2 (omul O) t w')) (canon f xs).
+    map (fun t => wstat t w') (canon f xs).
 
   (* one array element: (projected parameters, log_norm) *)
   Definition proj_col (f : family) (xs lws : list T) : list T * T :=
@@ -325,6 +334,8 @@ Inductive case :=
 | CProj (tb : tabs) (f : family) (is_scalar : bool) (cols : list (list float * list float))
         (id_ : Z) (l h : float)
         (obs_elems : list (list float)) (obs_lognorm : list float) (obs_id : Z) (obs_l obs_h : float)
+(* cls.project raised *)
+| CProjExc (f : family)
 (* TransformedMessage.project: the base is projected on the samples AS GIVEN, the result is
    re-wrapped with the same transforms and id; kwargs and limits are dropped *)
 | CTProj (tb : tabs) (f : family) (is_scalar : bool) (cols : list (list float * list float))
@@ -334,9 +345,11 @@ Inductive case :=
 
 Definition check_case (c : case) : bool :=
   match c with
+  | CProjExc f => family_eqb f FBeta && negb (beta_project_ok cur)
   | CAlg tb sc env e obs => opt_eqb mval_eqb (eval (fops sc tb) cur env e) obs
   | CProj tb f sc cols i l h oe oln oi ol oh =>
       let r := proj_msg tb f sc cols in
+      (negb (family_eqb f FBeta) || beta_project_ok cur) &&
       list_eqb flist_eqb (fst r) oe && flist_eqb (snd r) oln
       && Z.eqb i oi && fbits_eqb l ol && fbits_eqb h oh
   | CTProj tb f sc cols st ti ost oti otl oth oe oln oi ol oh =>
